@@ -7,7 +7,7 @@ from ..oracle import run, wellformed
 from . import _diff
 
 ID = "C04"
-USE = ("tok", "sub", "xsub", "asdl", "lay", "edit", "xedit", "chr")
+USE = ("tok", "sub", "xsub", "asdl", "lay", "edit", "xedit", "chr", "spell")
 VOCABS = ("expr", "stmt", "defs", "match", "lit", "xsh")
 ENGINE = "accepted inputs of E-TOK (incl. xonsh) + E-SUB + E-ASDL + E-LAY + E-EDIT (python and xonsh corpus) + xonsh constructs in every one-hole context; compile() + structural walk"
 RULE = (
